@@ -312,8 +312,8 @@ def run_mode(ctx, mode):
         big = next((j for j in jobs if 2 <= len(j[1]["walks"]) <= 3), jobs[0])
         jobs.append((big[0] + "-x5200", big[1], mode, "plain", False, ctx.seed * 7919 + 77, {"flagdir": flagdir, "scale": 1, "repeat": 5200}))
     if mode == "C05" and jobs:
-        # a reference chain of 60 (thorough: 130) segments, every one aligned: regions and node lists over more than 50 indexed nodes
-        n_, L_ = (130 if ctx.thorough else 60), 3
+        # a reference chain of 60 (thorough: 75) segments, every one aligned: regions and node lists over more than 50 indexed nodes
+        n_, L_ = (75 if ctx.thorough else 60), 3
         wide = {"phase": "file", "ref": [L_] * n_, "hap": [], "extra": [], "avoid": [],
                 "links": [{"ends": [[k, 1], [k + 1, 0]], "ov": 0} for k in range(1, n_)],
                 "walks": [[[">", k]] for k in range(1, n_ + 1)] + [[[">", k], [">", k + 1]] for k in range(1, n_, 7)] + [[["<", k + 1], ["<", k]] for k in range(3, n_, 11)]}
